@@ -275,6 +275,12 @@ static void kf_guard(int k, int is_rm)
 			if (!it_open[i] || it_pos[i] < 0) continue;
 			int removes_pos = (k == it_pos[i] && present[k]);
 			int pos_already_removed = !present[it_pos[i]];
+			/* only while the iterator's entry has no smaller present key (its predecessor is the list header): with
+			 * a live predecessor the unchanged library handles these histories (seeded/C18-2 showed that the wider
+			 * exclusion hid a change in exactly that branch) */
+			int has_pred = 0;
+			for (int j = 0; j < NKEYS; j++) if (j < it_pos[i] && present[j] && j != k) has_pred = 1;
+			if (has_pred) continue;
 			if ((removes_pos && rm_since_pos[i] >= 1) || (pos_already_removed && present[k])) ASSUME(0);
 		}
 	}
@@ -546,6 +552,10 @@ static void run_scenario(const struct opdef *ops)
 	/* constant prefix putting the map into an interesting state: two entries, iterator 0 positioned on the first
 	 * entry it returns; the enumerated operations then start from there (reaches 7-operation histories) */
 	do_op(1, 0, 0); do_op(1, 1, 1); do_op(5, 0, 0); do_op(6, 0, 0);
+#endif
+#ifdef PRELOAD2
+	/* three entries, iterator 0 advanced twice: positioned on an entry that has a live predecessor (ordered maps: the middle one) */
+	do_op(1, 0, 0); do_op(1, 1, 1); do_op(1, 2, 2); do_op(5, 0, 0); do_op(6, 0, 0); do_op(6, 0, 0);
 #endif
 	for (int n = 0; n < NOPS; n++) do_op(ops[n].kind, ops[n].arg, n);
 	/* iterators gone -> dictionary again */
